@@ -115,6 +115,8 @@ def single_assignments(fn: ast.AST) -> Dict[str, List[ast.AST]]:
                             out.setdefault(x.id, []).append(ast.copy_location(sub, n.value))
         elif isinstance(n, ast.AnnAssign) and isinstance(n.target, ast.Name) and n.value is not None:
             out.setdefault(n.target.id, []).append(n.value)
+        elif isinstance(n, ast.NamedExpr) and isinstance(n.target, ast.Name):
+            out.setdefault(n.target.id, []).append(n.value)
     return out
 
 
@@ -267,8 +269,33 @@ def stale_loop_reads(fn: ast.AST, qual: str, loop: ast.For) -> List[tuple]:
                 accum.add(st.name)          # bound on entry to the handler, on every path into it
     own_targets = {x.id for x in ast.walk(loop.target) if isinstance(x, ast.Name)}
     out = []
+
+    def lazily_invariant(var: str) -> bool:
+        """`v = <sentinel>` before the loop, `if v is <sentinel>: v = E` inside it, E reading nothing the loop binds: the value is
+        computed by the first iteration that needs it and is the same for every iteration - not one scenario's value read by another."""
+        sites = []
+        for b in loop.body:
+            for g in ast.walk(b):
+                if id(g) in comp_bound:
+                    continue
+                if isinstance(g, ast.Name) and g.id == var and isinstance(g.ctx, ast.Store):
+                    sites.append(g)
+        guarded = []
+        for b in loop.body:
+            for g in ast.walk(b):
+                if isinstance(g, ast.If) and isinstance(g.test, ast.Compare) and len(g.test.ops) == 1 and isinstance(g.test.ops[0], (ast.Is, ast.Eq)) \
+                        and isinstance(g.test.left, ast.Name) and g.test.left.id == var and not g.orelse:
+                    for st in g.body:
+                        if isinstance(st, ast.Assign) and len(st.targets) == 1 and isinstance(st.targets[0], ast.Name) and st.targets[0].id == var:
+                            rn = {x.id for x in ast.walk(st.value) if isinstance(x, ast.Name)}
+                            if not rn & (assigned | own_targets):
+                                guarded.append(st.targets[0])
+        return bool(sites) and all(any(s_ is g_ for g_ in guarded) for s_ in sites)
+
     for var in sorted(assigned - accum - own_targets):
         hits = []
+        if lazily_invariant(var):
+            continue
 
         def rw(node, label):
             a = node.ast
@@ -759,7 +786,19 @@ def value_alternatives(cls_node: Optional[ast.ClassDef], fn: ast.AST, e: ast.AST
         if not binds:
             return [e]
         out: List[ast.AST] = []
+        # `v = None` ... `if v is None: v = E` at the top of the function: past that statement v is never None
+        refilled = any(isinstance(g, ast.If) and isinstance(g.test, ast.Compare) and len(g.test.ops) == 1 and isinstance(g.test.ops[0], ast.Is)
+                       and isinstance(g.test.left, ast.Name) and g.test.left.id == e.id and isinstance(g.test.comparators[0], ast.Constant)
+                       and g.test.comparators[0].value is None
+                       and any(isinstance(st_, ast.Assign) and len(st_.targets) == 1 and isinstance(st_.targets[0], ast.Name) and st_.targets[0].id == e.id
+                               for st_ in g.body) for g in getattr(fn, "body", []))
         for site, v in binds:
+            if refilled and isinstance(v, ast.Constant) and v.value is None:
+                continue
+            km = _keyed_memo_read(cls_node, fn, v)
+            if km is not None:
+                out += value_alternatives(cls_node, fn, km, depth + 1, sites + (site,)) if not isinstance(km, ast.Name) else [km]
+                continue
             if isinstance(v, ast.Subscript) and isinstance(v.value, ast.Name) and isinstance(v.slice, ast.Constant) and isinstance(v.slice.value, int):
                 alt = _memo_read(cls_node, fn, sites + (site,), v)
                 if alt is not None:
@@ -770,6 +809,122 @@ def value_alternatives(cls_node: Optional[ast.ClassDef], fn: ast.AST, e: ast.AST
             out += value_alternatives(cls_node, fn, v, depth + 1, sites + (site,))
         return out
     return [e]
+
+
+_PURE_CALLEES = {"round", "int", "float", "abs", "len", "min", "max", "tuple", "type", "str", "bool"}
+
+
+def _table_attr(fn: ast.AST, e: ast.AST) -> Optional[str]:
+    """attribute name when *e* is a table kept on the object or its class: self.T / cls.T / type(self).T / ClassName.T, or a local naming one"""
+    e = deref(fn, e)
+    if isinstance(e, ast.Attribute) and (isinstance(e.value, ast.Name) or (isinstance(e.value, ast.Call) and call_name(e.value) == "type")
+                                         or dotted(e.value) == "self.__class__"):
+        return e.attr
+    return None
+
+
+def _written_out(fn: ast.AST, e: ast.AST, depth: int = 4) -> ast.AST:
+    """*e* with single-assignment locals of *fn* replaced by their values"""
+    import copy as _copy
+    e = _copy.deepcopy(e)
+    for _ in range(depth):
+        changed = False
+
+        class W(ast.NodeTransformer):
+            def visit_Name(self, node):
+                nonlocal changed
+                if isinstance(node.ctx, ast.Load):
+                    d = deref(fn, node, 1)
+                    if d is not node:
+                        changed = True
+                        return _copy.deepcopy(d)
+                return node
+        e = W().visit(e)
+        if not changed:
+            break
+    return e
+
+
+def _block_binding(fn: ast.AST, stmt: ast.stmt, name: str) -> Optional[ast.AST]:
+    """the value of the nearest plain assignment `name = V` that precedes *stmt* in its own block or an enclosing one"""
+    def search(body) -> Optional[list]:
+        for i, st in enumerate(body):
+            if st is stmt:
+                return [(body, i)]
+            for fld in ("body", "orelse", "finalbody"):
+                sub = getattr(st, fld, None)
+                if isinstance(sub, list) and sub and isinstance(sub[0], ast.stmt):
+                    r = search(sub)
+                    if r is not None:
+                        return r + [(body, i)]
+            for h in getattr(st, "handlers", []):
+                r = search(h.body)
+                if r is not None:
+                    return r + [(body, i)]
+        return None
+    chain = search(getattr(fn, "body", []))
+    for body, i in chain or []:
+        for st in reversed(body[:i]):
+            if isinstance(st, ast.Assign) and len(st.targets) == 1 and isinstance(st.targets[0], ast.Name) and st.targets[0].id == name:
+                return st.value
+            if any(isinstance(x, ast.Name) and x.id == name and isinstance(x.ctx, ast.Store) for x in ast.walk(st)):
+                return None               # bound somewhere inside a compound statement: not decided here
+    return None
+
+
+def _keyed_memo_read(cls_node, fn, v: ast.AST) -> Optional[ast.AST]:
+    """For ``T.get(K)`` / ``T[K]`` on a table T kept on the object or its class: the expression every store ``T[K'] = V`` of the class
+    puts there, provided K' is the same key expression and V is a function of the key alone (its free names all occur in the key;
+    only pure built-ins are called) - then what is remembered under the key is the value V has now.  None otherwise."""
+    if cls_node is None:
+        return None
+    if isinstance(v, ast.Call) and isinstance(v.func, ast.Attribute) and v.func.attr == "get" and len(v.args) == 1 and not v.keywords:
+        table, key = v.func.value, v.args[0]
+    elif isinstance(v, ast.Subscript) and not isinstance(v.slice, (ast.Constant, ast.Slice)):
+        table, key = v.value, v.slice
+    else:
+        return None
+    attr = _table_attr(fn, table)
+    if attr is None:
+        return None
+    key_text = ast.unparse(_written_out(fn, key))
+    stored = []
+    for f2 in [x for x in ast.walk(cls_node) if isinstance(x, (ast.FunctionDef, ast.AsyncFunctionDef)) and not getattr(x, "_absorbed", False)]:
+        for n in ast.walk(f2):
+            if isinstance(n, ast.Assign):
+                for t in n.targets:
+                    if isinstance(t, ast.Subscript) and _table_attr(f2, t.value) == attr:
+                        stored.append((f2, n, t.slice, n.value))
+            if isinstance(n, ast.Call) and isinstance(n.func, ast.Attribute) and n.func.attr in ("update", "setdefault", "__setitem__") \
+                    and _table_attr(f2, n.func.value) == attr:
+                return None
+    if not stored:
+        return None
+    result = None
+    for f2, st, k2, val in stored:
+        if f2 is not fn or ast.unparse(_written_out(f2, k2)) != key_text:
+            return None
+        if isinstance(val, ast.Name):
+            b = _block_binding(f2, st, val.id)
+            if b is None:
+                return None
+            val = b
+        val = _written_out(f2, val)
+        # the key determines a name only when the name itself is (a component of) the key: (type(dt), dt) determines dt, (type(dt),) does not
+        kx = _written_out(f2, k2)
+        key_names = {x.id for x in (kx.elts if isinstance(kx, ast.Tuple) else [kx]) if isinstance(x, ast.Name)}
+        for x in ast.walk(val):
+            if isinstance(x, ast.Call) and not (isinstance(x.func, ast.Name) and x.func.id in _PURE_CALLEES):
+                return None
+            if isinstance(x, ast.Attribute):
+                return None
+        free = {x.id for x in ast.walk(val) if isinstance(x, ast.Name)} - _PURE_CALLEES
+        if not free <= key_names:
+            return None
+        if result is not None and ast.unparse(result) != ast.unparse(val):
+            return None
+        result = val
+    return result
 
 
 def _memo_read(cls_node, fn, sites, read: ast.Subscript):
@@ -826,3 +981,46 @@ def _memo_read(cls_node, fn, sites, read: ast.Subscript):
     # all stores must put the same thing at position i (after looking through their locals)
     f2, v = tuples[0]
     return f2, v.elts[i]
+
+
+def write_out_param_reads(fn: ast.FunctionDef) -> ast.FunctionDef:
+    """A copy of *fn* in which a local bound exactly once, at the top level of the body, to a plain read of a parameter
+    (``kind = type(p)``, ``node_type = p["type"]``) is written out at its uses.  The parameter must not be rebound and the
+    read key must not be stored to anywhere in the function (so the read has one value for the whole call)."""
+    import copy as _copy
+    fn = _copy.deepcopy(fn)
+    ps = {a.arg for a in fn.args.posonlyargs + fn.args.args + fn.args.kwonlyargs}
+    stores: Dict[str, int] = {}
+    for n in ast.walk(fn):
+        if isinstance(n, ast.Name) and isinstance(n.ctx, (ast.Store, ast.Del)):
+            stores[n.id] = stores.get(n.id, 0) + 1
+    written_keys = set()
+    for n in ast.walk(fn):
+        if isinstance(n, ast.Subscript) and isinstance(n.ctx, (ast.Store, ast.Del)) and isinstance(n.value, ast.Name):
+            written_keys.add((n.value.id, ast.dump(n.slice)))
+        if isinstance(n, ast.Call) and isinstance(n.func, ast.Attribute) and isinstance(n.func.value, ast.Name) \
+                and n.func.attr in ("pop", "update", "clear", "setdefault", "popitem", "__setitem__", "__delitem__"):
+            written_keys.add((n.func.value.id, "*"))
+    mapping: Dict[str, ast.AST] = {}
+    for st in fn.body:
+        if isinstance(st, ast.Assign) and len(st.targets) == 1 and isinstance(st.targets[0], ast.Name):
+            t, v = st.targets[0].id, st.value
+            if stores.get(t) != 1 or t in ps:
+                continue
+            if isinstance(v, ast.Call) and isinstance(v.func, ast.Name) and v.func.id == "type" and len(v.args) == 1 and not v.keywords \
+                    and isinstance(v.args[0], ast.Name) and v.args[0].id in ps and stores.get(v.args[0].id, 0) == 0:
+                mapping[t] = v
+            elif isinstance(v, ast.Subscript) and isinstance(v.value, ast.Name) and v.value.id in ps and stores.get(v.value.id, 0) == 0 \
+                    and isinstance(v.slice, ast.Constant) and (v.value.id, ast.dump(v.slice)) not in written_keys and (v.value.id, "*") not in written_keys:
+                mapping[t] = v
+    if not mapping:
+        return fn
+
+    class W(ast.NodeTransformer):
+        def visit_Name(self, node):
+            if isinstance(node.ctx, ast.Load) and node.id in mapping:
+                return ast.copy_location(_copy.deepcopy(mapping[node.id]), node)
+            return node
+    fn.body = [W().visit(st) for st in fn.body if not (isinstance(st, ast.Assign) and len(st.targets) == 1
+                                                       and isinstance(st.targets[0], ast.Name) and st.targets[0].id in mapping)]
+    return fn
